@@ -10,5 +10,7 @@ CONSTANTS
   EmitMode = "none"
   HistViews = TRUE
   OrderedBegin = FALSE
+  MaxOpen = 9
+  NoClose = FALSE
 INVARIANTS TypeOK RingConsistent InOrder NoDirty PrefixRule CompleteKF AtomicKF CleanupSafe SeekConsistent SeekNoDirty EmitWalk
 CHECK_DEADLOCK FALSE
